@@ -63,7 +63,7 @@ Its == DOMAIN counter
 Wrap(x) == IF x >= MOD THEN x - MOD ELSE x
 IsRange == cf.kind = "range"
 HasDrop == cf.kind \in {"vec", "array"}
-SkipTo == IF IsRange THEN cf.start + cf.len ELSE cf.len
+SkipTo == cf.len      \* every kind stores the LENGTH (an index); until fix 94d3de8 the range kind stored its end value
 
 CfgOfModel ==
   [ len |-> SrcLen, nt |-> NT, start |-> Start, kind |-> Kind,
